@@ -29,7 +29,7 @@ from vc.pyvc import compare, source, seqs
 from vc.pyvc import engine as E
 from vc.pyvc.discharge import TIMEOUT_MS
 
-LEVEL = "proof"
+LEVEL = "other"
 PID = "C20"
 walk_spec = z3.Function("walk_spec", E.Ref, E.Ref, E.Ref, seqs.SeqT)
 child = z3.Function("child", E.Ref, E.I, E.Ref)
